@@ -177,7 +177,7 @@ Print Assumptions c04_proto_b_sound.
    metrics 1, 2, 3; the next suggest resumes the best one from rung position 1 to level 3; the one
    after starts a new trial because 2 > quantile 5/3) *)
 Example c04_example :
-  let cfg := mkC VPromotion Min 9 [(1%Z, 1 # 3); (3%Z, 1 # 3)] 1 false true false 0 (1 # 1000000000) in
+  let cfg := mkC VPromotion Min 9 [(1%Z, 1 # 3); (3%Z, 1 # 3)] 1 false true false 0 (1 # 1000000000) true in
   let evs := [Suggest 0 0 true true; Suggest 1 0 true true; Suggest 2 0 true true;
               Report 0 1 1 0 0; Remove 0; Report 1 1 2 0 0; Remove 1; Report 2 1 3 0 0; Remove 2;
               Suggest 3 0 true true; Suggest 3 0 true true] in
